@@ -40,14 +40,27 @@ LEVEL_TEXT = ("Lean theorems over all event histories of one object in one proce
               "event after any number of requests); watched_first_never_resumed (an object first seen through ADDED/MODIFIED after "
               "admission requests is never resumed: creation never mixes with resuming); admitted_first_never_resumed / "
               "admitted_first_witness are REGRESSIONS about the pre-fix `admissionOld` (the witness is replayed on the real code and must pass). "
-              "Model tied to the code per cycle (memory incl. resumed_handlers, cause, selection, invocations, records).")
+              "Cycles cut short by an exception (Model/C14_Results: the handlers' RESULTS are delivered into the patch before the memory "
+              "notes the finished resuming handlers, the patch is sent after): completed_never_again_results — for ANY rule of what makes "
+              "the delivery raise, if the delivery of the completing pass's results did not raise, the handler is never invoked again, "
+              "whatever later cycles are cut (before or after the bookkeeping), whatever patches are lost (the completing pass's own "
+              "included), whatever the handlers return later; completed_never_again_copyable — for the code as it is that covers every "
+              "result that is None, a mapping, or copyable (all the JSON-unwritable ones: datetime, set, Decimal, bytes, nested views); "
+              "cut_before_memory_repeats (universal: a cycle cut before the bookkeeping is repeated in full by the same event seen "
+              "again); the clause is FALSE of the code for the remaining results — uncopyable_result_witness = open finding F11 (a "
+              "non-mapping result copy.deepcopy rejects: replayed on the real code on every run) — and of the seeded variant C14f: "
+              "json_normalised_variant_witness. "
+              "Model tied to the code per cycle (memory incl. resumed_handlers, cause, selection, invocations, records; for cycles that "
+              "returned results or were cut: `C14.stepR` with the measured shapes of the results, incl. WHERE the cycle was cut).")
 THEOREMS = [("Kopf.Props.C14", "Kopf.C14." + n) for n in [
     "resume_invoked_only_initial", "not_for_new", "after_fully_handled_never",
     "resumed_not_selected", "completed_never_again", "completed_never_again_run",
     "eligible_selected", "eligible_invoked", "suppressed_keeps_initial", "flipflop_regression", "stale_view_regression",
     "marked_listed_selected_iff_optin", "free_step_nothing",
     "first_event_decides", "runA_eq_run", "eligible_selected_admitted", "eligible_invoked_admitted", "watched_first_never_resumed",
-    "admitted_first_never_resumed", "admitted_first_witness"]]
+    "admitted_first_never_resumed", "admitted_first_witness",
+    "completed_never_again_results", "completed_never_again_copyable", "cut_before_memory_repeats",
+    "uncopyable_result_witness", "json_normalised_variant_witness"]]
 RULE = ("seeded scenarios: objects handled by a first incarnation, then stop/kill + restart; 1-3 resume handlers (label filters, "
         "deleted opt-in, failures/retries) next to create/update/delete handlers; re-listings (history compaction + 410), "
         "stream reconnects, edits and label flip-flops before/during/after the resume cycle, deletions; one case = one processing "
@@ -58,12 +71,25 @@ RULE = ("seeded scenarios: objects handled by a first incarnation, then stop/kil
         "sub-handlers through kopf.execute) followed by a record loss (label flip-flop, stale view), admission requests (UPDATE / DELETE / "
         "CREATE, one or several) through the operator's real serve_admission_request: before the listing at the first start and at a "
         "restart, later, for an object being created while the operator runs (CREATE review before it exists, UPDATE/DELETE before its "
-        "ADDED event is processed; with and without a last-handled annotation), followed by edits / flips / re-listings / deletions")
-TRUSTED = c02.TRUSTED + ["harness/props/sim_c14.py (fake webhook server that only keeps the webhookfn kopf binds; timeline op `admit`)",
+        "ADDED event is processed; with and without a last-handled annotation), followed by edits / flips / re-listings / deletions; "
+        "plus (seed C14f): what the handlers RETURN — arbitrary Python (plain JSON values incl. falsy ones, datetime/date/timedelta, "
+        "set/frozenset, tuple, bytes, Decimal, complex, an object, kopf's own views, UserDict, mappingproxy, int / tuple keys, a "
+        "self-referencing list, a lock, a generator; at the top, in a dict, in a list, two levels down; the same result at every call), "
+        "alone or beside a sibling that keeps the cycle open, and PATCHes refused or lost (500/503/422, connection lost before/after "
+        "the server applied it), followed by re-listings, reconnects, edits, flips, restarts under default and short error throttling")
+TRUSTED = c02.TRUSTED + ["harness/props/sim_c14.py: `pyvalue` (scenario JSON → the Python value a handler returns), `result_shape` (is it None / a Mapping, "
+                         "do copy.deepcopy / json.dumps take it: measured on the value, no kopf code), the `_wire` hook (the fake session "
+                         "serialises the payload with json.dumps when the request is made, as aiohttp does with json=)",
+                         "harness/props/sim_c14.py (fake webhook server that only keeps the webhookfn kopf binds; timeline op `admit`)",
                          "the oracle's reading of 'exists when the operator starts' = stored in the fake cluster before the incarnation's "
                          "start mark (cluster history), and of 'ran to completion' = returned / PermanentError / an error the declared "
                          "errors= mode takes for final / the last attempt allowed by retries= (from the scripted handler's own log)"]
-ASSUMPTIONS = ["filters (`registries.match`) enter the model as the observed per-handler match result (C15's subject)",
+ASSUMPTIONS = ["the positive clause is not judged for an object one of whose cycles ended in an exception in that incarnation (a result that "
+               "cannot be delivered or sent, a refused/lost PATCH — like the API faults it never was judged under): the handlers still "
+               "to run wait for the next event of the object (observed: with lifecycle asap/one_by_one a resume handler's unstorable "
+               "result starves its siblings until then); counted in first_clause/not-judged",
+               "results of sub-handlers (delivered inside the parent's invocation: a failure there is the parent's error) are not in the model",
+               "filters (`registries.match`) enter the model as the observed per-handler match result (C15's subject)",
                "`eligible_invoked` (first attempt in the first non-suppressed cycle; unchanged objects and objects edited while the "
                "operator was down alike) is proved for the all-at-once lifecycle; `suppressed_keeps_initial` carries it over a "
                "suppressed first cycle; for one-by-one/asap only selection (`eligible_selected` / `matching_selected`) is proved; "
@@ -473,6 +499,99 @@ def gen_stacked_siblings(rng: Any, i: int) -> dict:
     return sc
 
 
+PLAIN_RESULTS: list = ["done", 7, 0, "", True, False, [1, 2], [], {"ok": True, "items": [1, 2]}, {}, {"a": {"b": None}}, 1.5]
+PY_RESULT_KINDS = ["datetime", "datetime", "date", "timedelta", "set", "frozenset", "tuple", "bytes", "decimal", "complex", "object",
+                   "view", "view", "userdict", "mappingproxy", "intkeys", "tuplekeys", "circular", "lock", "generator"]
+F11_SIG = {"site": "progression.deliver_results", "shape": "resume handler repeated: a result delivered in its completing pass (its own or a sibling's; not a mapping, rejected by copy.deepcopy) raised in the delivery of results, before the memory noted the handler as finished"}
+
+
+def _result(rng: Any) -> Any:
+    """What a handler returns: arbitrary Python. Plain JSON values (falsy ones too), and everything JSON cannot write down
+    or writes down differently — at the top, inside a dict, inside a list, two levels down (see sim_c14.pyvalue)."""
+    if rng.random() < 0.2:
+        return rng.choice(PLAIN_RESULTS)
+    kind = rng.choice(PY_RESULT_KINDS)
+    node: dict[str, Any] = {"$py": kind}
+    if kind == "view":
+        node["of"] = rng.choice(["spec", "meta", "status", "body", "labels"])
+    if kind in ("object", "tuplekeys"):
+        node["of"] = rng.choice([1, "x", [1]])
+    place = rng.choice(["top", "top", "dict", "dict", "list", "deep"])
+    if place == "top":
+        return node
+    if place == "dict":
+        return {"at": node, "n": 1}
+    if place == "list":
+        return [1, node]
+    return {"a": {"b": [node]}}
+
+
+def gen_results(rng: Any, i: int) -> dict:
+    """The framework handles what the handlers RETURN between their completion and its own bookkeeping: resume handlers
+    (and their create/update neighbours) that finish with arbitrary Python results — now and then after a retry, the same
+    result at every call —, alone or beside a sibling that keeps the cycle open; and the other way a finished cycle fails:
+    the PATCH that carries the progress is refused / lost (5xx, 422, connection lost before or after the server applied
+    it). Then the events that must not repeat the handler: re-listings (410), reconnects, edits, label flips, a restart;
+    with the default error throttling and with short ones."""
+    unusual = _result(rng)
+    handlers: list[dict] = []
+    nres = rng.choice([1, 1, 2, 3])
+    star = rng.randrange(nres)
+    for k in range(nres):
+        h: dict[str, Any] = {"kind": "resume", "id": f"r{k}", "opts": {}, "script": [], "default": "ok"}
+        if k == star:
+            h["script"] = ([["temp", rng.choice([0.5, 1.0])]] if rng.random() < 0.25 else []) + [["ok", unusual]]
+            h["default"] = ["ok", unusual]
+            if rng.random() < 0.2:
+                h["opts"]["labels"] = {"l": "1"}
+        else:
+            how = rng.choice(["ok", "result", "retrying", "retrying"])
+            if how == "result":
+                h["script"] = [["ok", _result(rng)]]
+            elif how == "retrying":
+                h["script"] = [["temp", rng.choice([2.0, 6.0, 20.0])]] * rng.choice([1, 2])
+        handlers.append(h)
+    if rng.random() < 0.5:
+        handlers.append({"kind": "update", "id": "u0", "script": [rng.choice(["ok", ["ok", _result(rng)]])], "default": "ok"})
+    if rng.random() < 0.3:
+        handlers.append({"kind": "create", "id": "c0", "script": [rng.choice(["ok", ["ok", _result(rng)]])], "default": "ok"})
+    rng.shuffle(handlers)
+    sc: dict[str, Any] = {"seed": i, "runner": "harness.props.sim_c14:run_scenario",
+                          "lifecycle": rng.choice(["asap", "one_by_one", "all_at_once"]), "handlers": handlers,
+                          "settings": {"execution.default_backoff": 1.0, "watching.reconnect_backoff": 0.125}}
+    delays = rng.choice([None, None, [0.25], [1, 1, 2]])
+    if delays is not None:
+        sc["settings"]["queueing.error_delays"] = delays
+    tl: list[list] = []
+    if rng.random() < 0.6:
+        sc["objects"] = [_handled_object()]
+        name, t = "a", 0.0
+    else:
+        tl += [[1.0, "create", "a", {"spec": {"x": 1}, "metadata": {"labels": {"l": "1"}}}], [8.0, rng.choice(["stop", "kill"])], [9.0, "start"]]
+        name, t = "a", 9.0
+    if rng.random() < 0.3:      # the other failure of a finished cycle: its PATCH does not make it
+        sc["faults"] = [{"match": {"method": "PATCH", "path_contains": "kopfexamples/", "after": t},
+                         "fault": rng.choice([["status", 500], ["status", 503], ["status", 422], ["conn-before"], ["conn-after"]]),
+                         "times": rng.choice([1, 1, 2, 3])}]
+    for _ in range(rng.choice([2, 3, 3, 4])):
+        t += rng.choice([0.5, 1.0, 2.0, 4.0, 8.0])
+        op = rng.choice(["relist", "relist", "reconnect", "edit", "edit", "flip", "restart"])
+        if op == "relist":
+            tl += [[t, "compact"], [t, "break", "410"]]
+        elif op == "reconnect":
+            tl.append([t, "break", rng.choice(["eof", "conn"])])
+        elif op == "edit":
+            tl.append([t, "edit", name, rng.choice([{"spec": {"x": rng.randrange(2, 9)}}, {"metadata": {"annotations": {"foo": str(rng.randrange(9))}}}])])
+        elif op == "flip":
+            tl.append([t, "edit", name, {"metadata": {"labels": {"l": rng.choice(["0", "1"])}}}])
+        else:
+            tl += [[t, rng.choice(["stop", "kill"])], [t + 1.0, "start"]]
+            t += 1.0
+    sc["timeline"] = tl
+    sc["end"] = t + 25.0
+    return sc
+
+
 def _mem(snap: dict | None, sort: bool = True) -> dict | None:
     """`ResourceMemory` as the model reads it; `noticed_by_listing` is True / False / None (not known yet)."""
     if snap is None:
@@ -570,7 +689,17 @@ def oracle(ctx: Ctx, sc: dict, tr: dict) -> None:
                     dropped_while_selected = True
                 else:
                     dropped = True
-        sig = (F9_SIG if dropped and not dropped_while_selected else
+        # … or did every completed call before the repetition return something that is not a mapping and that Python itself
+        # cannot copy (measured on the returned value by the scripted handler: `result_shape`) — open finding F11?
+        # (the results of one pass are delivered together: the completing call's own result, or that of a handler that returned
+        # in the same pass of the same cycle)
+        idx0 = next((n for n, c in enumerate(tr["calls"]) if c is calls[k0]), None)
+        same_pass = [tr["calls"][iv["call"]] for cyc in tr["cycles"] if any(iv.get("call") == idx0 for iv in cyc["invoked"])
+                     for iv in cyc["invoked"] if isinstance(iv.get("call"), int)] or [calls[k0]]
+        uncopyable = any(c.get("outcome") == "ok" and (sh := c.get("result_shape")) and not sh["none"] and not sh["mapping"]
+                         and not sh["copyable"] for c in same_pass)
+        sig = (F11_SIG if uncopyable and not dropped and not dropped_while_selected else
+               F9_SIG if dropped and not dropped_while_selected else
                {"site": "process_changing_cause", "shape": "finished record of a still-selected resume handler lost in an open cycle"}
                if dropped_while_selected else
                {"site": "process_changing_cause", "shape": "resume handler completed twice in one process"})
@@ -591,6 +720,7 @@ def oracle(ctx: Ctx, sc: dict, tr: dict) -> None:
     first_cycle: dict[tuple, dict] = {}
     for cyc in tr["cycles"]:
         first_cycle.setdefault((cyc["inc"], cyc["uid"]), cyc)
+    failed_cycles = {(cyc["inc"], cyc["uid"]) for cyc in tr["cycles"] if cyc.get("pcc_raised") or cyc.get("apply_raised") or cyc.get("error")}
     for incr in tr.get("incarnations", []):
         inc, t_start = incr["inc"], incr["t"]
         t_stop = inc_end.get(inc, t_end)
@@ -611,6 +741,11 @@ def oracle(ctx: Ctx, sc: dict, tr: dict) -> None:
                 continue    # unfinished progress from an earlier process
             marked0 = bool(meta0.get("deletionTimestamp"))
             held0 = OWN_FINALIZER in (meta0.get("finalizers") or [])
+            if (inc, uid) in failed_cycles:
+                # like an API fault: a cycle of this object ended in an exception (a result that cannot be delivered or sent,
+                # a refused patch); the handlers still to run wait for the next event of the object, which nothing promises
+                ctx.count("first_clause", "not-judged: a cycle of the object failed (undeliverable result / lost patch)")
+                continue
             for hid, h in resume_ids.items():
                 opts = h.get("opts") or {}
                 want_labels = opts.get("labels") or {}
@@ -681,6 +816,7 @@ def run(ctx: Ctx) -> None:
     gen(gen_shapes, 83_000_000, max(42, n // 4))
     gen(gen_admission, 84_000_000, max(30, n // 8))
     gen(gen_stacked_siblings, 85_000_000, max(20, n // 12))
+    gen(gen_results, 86_000_000, max(48, n // 4))
     for sc in scenarios:
         ctx.count("generator", sc["gen"])
     results = pool.run_many(scenarios, wall=40.0)
@@ -720,7 +856,23 @@ def run(ctx: Ctx) -> None:
             mb = cyc["mem_before"]
             flags = [cyc["event_type"] is None, cyc["event_type"] == "DELETED", marked, blocked,
                      bool(cause["old_absent"]), bool(cause["diff"]), p is None]
-            if p is not None and ("P_after" not in p or "error" in p["P_after"]):
+            # the results returned by the handlers invoked in this pass (None included), as the scripted handlers measured them
+            shapes = []
+            for inv in cyc["invoked"]:
+                c = tr["calls"][inv["call"]] if isinstance(inv.get("call"), int) and inv["call"] < len(tr["calls"]) else {}
+                if c.get("outcome") == "ok" and "/" not in str(inv["id"]):
+                    sh = c.get("result_shape") or {"none": True, "mapping": False, "copyable": True, "json_raw": True, "json_patch": True}
+                    shapes.append([bool(sh[k]) for k in ("none", "mapping", "copyable", "json_raw", "json_patch")])
+                    ctx.count("result", ("none" if sh["none"] else sh.get("type", "?") + ("/mapping" if sh["mapping"] else "") +
+                                         ("" if sh["copyable"] else "/uncopyable") + ("" if sh["json_raw"] else "/not-json")))
+            # a pass that an exception left AFTER the handlers were executed (`outcomes` seen): compared through `C14.stepR`
+            # with nothing but the memory, the cause, the selection and the invocations (no patch was composed to look at)
+            cut = bool(cyc.get("pcc_raised")) and p is not None and p.get("outcomes") is not None
+            if cyc.get("pcc_raised"):
+                ctx.count("cycle_cut", f"process_changing_cause raised {cyc['pcc_raised']}" + ("" if cut else " before the handlers returned"))
+            if cyc.get("apply_raised"):
+                ctx.count("cycle_cut", f"application.apply raised {cyc['apply_raised']}")
+            if p is not None and not cut and ("P_after" not in p or "error" in p["P_after"]):
                 continue
             owned = [d["id"] for d in decls]
             req = ["C14.step", {
@@ -736,7 +888,11 @@ def run(ctx: Ctx) -> None:
                     "reason": cause["reason"],
                     "selected": p["selected"] if p else None,
                     "invoked": [[i["id"], i["retry"]] for i in cyc["invoked"] if i["id"] in owned],
-                    "P": {k: v for k, v in p["P_after"].items() if k in owned} if p else None}
+                    "P": {k: v for k, v in p["P_after"].items() if k in owned} if p and not cut else None}
+            if cut or any(not sh[0] for sh in shapes) or cyc.get("apply_raised"):
+                req = ["C14.stepR", {**req[1], "results": shapes, "patchLost": bool(cyc.get("apply_raised"))}]
+                if not flags[1]:     # (no patch is sent for a DELETED event)
+                    impl["cut"] = "before-memory" if cut else "patch-lost" if cyc.get("apply_raised") else "through"
             sel_res = sorted(set(impl["selected"] or []) & resume_ids)
             shape = {"mem": req[1]["mem"], "flags": flags, "reason": cause["reason"], "sel_resume": len(sel_res),
                      "out": sorted((o["final"], o["error"]) for o in req[1]["outcomes"].values())}
@@ -765,6 +921,8 @@ def run(ctx: Ctx) -> None:
             ctx.tie_fail("driver rejected a cycle", {"request": req, "answer": out, **wh})
             continue
         m = out[1]
+        if req[0] == "C14.stepR":
+            m = m["step"]
         if m["mem"] is not None:
             m["mem"]["resumed"] = sorted(set(m["mem"]["resumed"]))
         if req[0] == "C14.admission":
@@ -775,14 +933,19 @@ def run(ctx: Ctx) -> None:
             # give (asked by the observer, computed by the model's gate) is not a behaviour of the code
             impl = {**impl, "selected": None if impl["selected"] is None else []}
             m = {**m, "selected": []}
+        if req[0] == "C14.stepR" and (req[1]["patchLost"] or out[1]["wireRaises"]):
+            impl = {**impl, "P": None}       # the patch never arrived: what it would have written is not the object's state
         model = {"mem": m["mem"], "reason": m["reason"],
                  "selected": m["selected"] if impl["selected"] is not None else None,
                  "invoked": m["invoked"], "P": m["P"] if impl["P"] is not None else None}
+        if "cut" in impl:
+            model["cut"] = ("before-memory" if out[1]["deliveryRaises"] and m["invoked"] else
+                            "patch-lost" if req[1]["patchLost"] or out[1]["wireRaises"] else "through")
         ctx.compare("C14 processing cycle", impl, model, wh)
 
 
 ALL_GENS = [(gen_scenario, 8), (gen_relist_midcycle, 2), (gen_stale_view, 1), (gen_down_ops, 3), (gen_allfiltered, 2),
-            (gen_shapes, 3), (gen_admission, 3), (gen_stacked_siblings, 1)]
+            (gen_shapes, 3), (gen_admission, 3), (gen_stacked_siblings, 1), (gen_results, 4)]
 
 
 def search(ctx: Ctx, broken: list) -> None:
